@@ -357,7 +357,14 @@ impl<S: Source> AssetCache<S> {
     /// any [`Handle`], [`AssetReadGuard`], etc when you call this function.
     #[inline]
     pub fn remove<T: Storable>(&mut self, id: &str) -> bool {
-        self.assets.remove(id, TypeId::of::<T>())
+        let removed = self.assets.remove(id, TypeId::of::<T>());
+
+        #[cfg(feature = "hot-reloading")]
+        if removed {
+            self.forget_asset(id, TypeId::of::<T>());
+        }
+
+        removed
     }
 
     /// Takes ownership on a cached asset.
@@ -366,7 +373,21 @@ impl<S: Source> AssetCache<S> {
     #[inline]
     pub fn take<T: Storable>(&mut self, id: &str) -> Option<T> {
         let (asset, _) = self.assets.take(id, TypeId::of::<T>())?.into_inner();
+
+        #[cfg(feature = "hot-reloading")]
+        self.forget_asset(id, TypeId::of::<T>());
+
         Some(asset)
+    }
+
+    /// Tells the hot-reloading thread that an asset is not in the cache
+    /// anymore, so that a value later stored under the same key is not
+    /// overwritten by a reload of the removed asset.
+    #[cfg(feature = "hot-reloading")]
+    fn forget_asset(&self, id: &str, type_id: TypeId) {
+        if let Some(reloader) = &self.reloader {
+            reloader.remove_asset(id.into(), type_id);
+        }
     }
 
     /// Clears the cache.
